@@ -23,6 +23,8 @@ package expect
 //@   safety C19
 //@   requires iop != nil && s != nil && *s != nil && out != nil && *out != nil && ctx != nil
 //@   requires (*s).ParsePatterns ==> forall j int :: 0 <= j && j < len(iop.OutputSet) ==> is(iop.OutputSet[j].Pattern, string)
+//@   loop 1 invariant (*s).ParsePatterns ==> forall j int :: 0 <= j && j < len(iop.OutputSet) ==> is(iop.OutputSet[j].Pattern, string)
+//@   loop 2 invariant (*s).ParsePatterns ==> forall j int :: 0 <= j && j < len(iop.OutputSet) ==> is(iop.OutputSet[j].Pattern, string)
 //@   loop 2 ghostfn nb(rangeindex + 1) = need
 //@   loop 2 invariant[C19] marked: forall j rawint :: 0 <= j && j < rangeindex && nb(j + 1) < nb(j) ==> iop.OutputSet[j].Bindingss != nil
 //@   loop 2 invariant[C19] lastmarked: rangeindex >= 0 && need < nb(rangeindex) ==> iop.OutputSet[rangeindex].Bindingss != nil
